@@ -190,7 +190,7 @@ def run(ctx):
     builtin = regenerate(ctx)
     # 1-2. proofs
     try:
-        ctx.prove(PROP)
+        ctx.prove(PROP, extra_targets=['theories/C06/Corr.vo'])
         proof_ok = True
     except CoqFailure as e:
         proof_ok = False
@@ -256,7 +256,7 @@ def replay(ctx, path):
         body = json.load(f)
     case = body['record'].get('case')
     builtin = regenerate(ctx)
-    ctx.prove(PROP)
+    ctx.prove(PROP, extra_targets=['theories/C06/Corr.vo'])
     if case:
         o = run_impl('c06_impl.py', {'cases': [case]})
         print('implementation:', json.dumps(o[0]))
